@@ -149,7 +149,7 @@ CHECKS = {
         trusted=["gogo-protobuf Marshal/Unmarshal (payloads are opaque bytes in the model; the harness passes the fields of every full message it sends)",
                  "io.ReadFull / binary.Read short-read semantics are modelled (EOF when nothing was read, ErrUnexpectedEOF when part was read)"],
         partial=["corrupted (not truncated) streams are outside the theorems: length words are bounded (fix: commit) and checked by the oracle, but a corrupted payload is handed to protobuf",
-                 "the stream picker (MsgApp -> v2, MsgSnap -> pipeline, rest -> message stream) is not modelled"],
+                 "the stream picker (MsgApp -> v2, MsgSnap -> pipeline, rest -> message stream) is not modelled; the writer goroutine (batching, flush) is exercised on the real code by the oracle of protocol streamw only"],
         assumptions=["WfRun: MsgApps on the v2 stream have From/To equal to the groups' replica ids, carry no Reject/Snapshot/Context, node ids match the connection, and a group's name does not change while its ids stay the same (isSameGroup ignores the name)"],
         level_text="Theorems: (message level) the stateful msgappv2 codec, with isContinue / isSameGroup regenerated from the Go source, returns exactly the sent messages for every well-formed run, any interleaving of raft groups and link heartbeats, with the two codec states staying equal; two `decide` examples show both hypotheses are needed. (byte level) the framing of both codecs round-trips for every frame sequence, and for EVERY byte offset a truncated stream decodes to a prefix of the frames followed by io.EOF / io.ErrUnexpectedEOF, never a different frame. The model is tied byte for byte to the real encoders and, on whole and truncated streams, to the real decoders (incl. which of the two EOF errors is returned).",
         level_note="protobuf is opaque; corrupted streams oracle-only; entries larger/smaller than the 1 MiB buffer take different branches in the Go code and identical bytes in the model (compared).",
@@ -573,3 +573,8 @@ CHECKS['C01']['gens'] = CHECKS['C01']['gens'] + ['Hup']
 CHECKS['C01']['level_text'] = CHECKS['C01']['level_text'] + (" MEMBERSHIP (Props/C01Hup): over the REGENERATED guard of raft.hup (scan of applied+1..committed with noLimit, blocking test, "
     "numOfPendingConf, campaign only behind the guard) and the function-by-function log model of C02: C01_no_campaign_with_pending_conf_change — for every well-formed log a replica that goes "
     "on to campaign has NO configuration change among its committed-but-unapplied entries, however many bytes of ordinary entries precede it (C01_hup_scan_complete, witness of a size-limited scan missing one).")
+
+# C16: the real streamWriter goroutine (batching, forced flush, backlog at attach time) between a queue and the real decoders
+CHECKS['C16']['protos'].append({'name': 'streamw', 'mode': 'oracle', 'quick_seeds': 1, 'thorough_seeds': 2})
+CHECKS['C16']['rule'] = CHECKS['C16']['rule'] + ("; protocol streamw (oracle): backlogs of 1 .. 3*streamBufSize/2+7 messages of 1-4 interleaved groups (sizes around the forced-flush limit streamBufSize/2 and the "
+    "channel capacity), queued before / while the connection is attached, through the REAL streamWriter goroutine of both stream types, read back by the real decoders: same sequence")
